@@ -225,7 +225,7 @@ impl Opts {
 						.map_err(|_| format!("Expected a number after '{arg}'"))?;
 
 					let mut body = vec![];
-					let drain_count = new.cmds.len() - cmd_count;
+					let drain_count = new.cmds.len().saturating_sub(cmd_count);
 					body.extend(new.cmds.drain(drain_count..));
 					new.cmds.push(Cmd::Repeat{ body, count: CmdArg::Count(repeat_count + 1) });
 				}
